@@ -72,6 +72,27 @@ fn kar(r: &mut Rng, n: usize, depth: usize) -> Vec<u64> {
 
 /// (a, b) of al and bl limbs.  A share of the cases is shaped so that the product fits al limbs, a few sit
 /// exactly on the overflow boundary.
+/// Operands for the top Karatsuba level of an n-limb product (n even) that leave several carries pending where the
+/// accumulator is all ones: the cross term (x0 - x1)(y1 - y0) is negative, and (x1 * y1) >> (32 n) ends in 128 one bits
+/// (y1 = T div x1 for T = r : 1^128 : 1^(32 n)).  A carry word treated as a single bit in the recombination shows here only.
+fn pending_carries(r: &mut Rng, n: usize) -> (Vec<u64>, Vec<u64>) {
+    let h = n / 2;
+    let hb = 64 * h;
+    let mut x1 = uniform(r, h);
+    x1[h - 1] = (x1[h - 1] >> 2) | (1 << 61);                               // 2^(hb-2) <= x1 < 2^(hb-1)
+    let rr = vmask(&uniform(r, h), hb.saturating_sub(130).max(1));
+    let t = vadd(&vshl(&vadd(&vshl(&rr, 128), &trim(vsub(&vpow2(128), &[1]))), hb), &trim(vsub(&vpow2(hb), &[1])));
+    let y1 = fit(vdiv(&t, &x1), h);
+    let above = |r: &mut Rng, v: &[u64]| -> Vec<u64> {                      // a random value above v (below 2^hb)
+        let room = trim(vsub(&trim(vsub(&vpow2(hb), &[1])), v));
+        if room.is_empty() { return v.to_vec(); }
+        fit(vadd(v, &vadd(&below(r, &room), &[1])), h)
+    };
+    let (x0, y0) = (above(r, &x1), above(r, &y1));
+    let cat = |lo: &[u64], hi: &[u64]| -> Vec<u64> { let mut v = fit(lo.to_vec(), h); v.extend(fit(hi.to_vec(), h)); v };
+    (cat(&x0, &x1), cat(&y0, &y1))
+}
+
 fn mul_case(r: &mut Rng, al: usize, bl: usize) -> (Vec<u64>, Vec<u64>) {
     let depth = 4;
     let (mut a, mut b) = match r.below(20) {
@@ -79,6 +100,7 @@ fn mul_case(r: &mut Rng, al: usize, bl: usize) -> (Vec<u64>, Vec<u64>) {
         1 => (vec![MAX; al], kar(r, bl, depth)),
         2 => (kar(r, al, depth), vec![MAX; bl]),
         3 if al == bl => { let x = kar(r, al, depth); (x.clone(), x) } // a = b: multiply must equal square
+        4 | 5 if al == bl && al % 2 == 0 && al >= 4 => pending_carries(r, al),
         _ => (kar(r, al, depth), kar(r, bl, depth)),
     };
     // shaping towards products that fit (for the checked / saturating / panicking forms); rarer at the
